@@ -1371,6 +1371,9 @@ func hostMain() {
 	}
 	drv.mu.Unlock()
 	for _, c := range chs {
+		if sc.NoWaitAsync {
+			break
+		}
 		select {
 		case <-c:
 		case <-time.After(90 * time.Second):
